@@ -24,6 +24,132 @@ CLAIMED = {
         'Reads Heap internals (_start_to_block etc.) as the free index; real '
         'thread interleavings are OS-chosen.',
         'DESIGN.md section 3 C14'),
+    'C01': (
+        'simpool',
+        'Hypothesis-generated operation histories on the real Pool parent code '
+        'with simulated workers and an owned schedule/clock, checked against a '
+        'per-job reference model after every step',
+        'Histories of submissions (apply/map/starmap/imap), worker accept/finish/'
+        'deliver steps in any interleaving, deaths with any status, duplicate and '
+        'late messages, put failures, supervision ticks, timeout scans, clock '
+        'advances, discard, terminate_job and close are run against the real '
+        'billiard.pool.Pool parent code; after every step: outcomes never change, '
+        'callbacks fire at most once, every failure is the job\'s own or justified '
+        'by an event on that job, and at quiescence every accepted job is '
+        'resolved and the cache consistent. Exploration: no claim of absence.',
+        'Workers are simulated (engines/simpool.py); parent-thread races are below '
+        'the atomic step; zones of open known findings (D4/D7/D9/D10/D13) are '
+        'excluded by construction and replayed once per run.',
+        'DESIGN.md section 3 C01, section 2 E1'),
+    'C02': (
+        'simpool',
+        'Hypothesis-generated inputs, chunk sizes, pool sizes and chunk '
+        'completion orders vs the sequential computation (differential oracle)',
+        'For generated functions (incl. raising at generated positions), input '
+        'lengths 0-12, chunk sizes (explicit or defaulted) and pool sizes, with '
+        'every order in which chunks are accepted and completed by different '
+        'simulated workers, map/starmap values, imap order, imap_unordered '
+        'multiset, apply values, exception type/args and the attached remote '
+        'traceback are compared with a sequential run. Exploration level.',
+        'Chunk completion order is owned by the harness; the real pipes and '
+        'processes are exercised by the real-pool part when present.',
+        'DESIGN.md section 3 C02'),
+    'C04': (
+        'simpool',
+        'Hypothesis-generated crash histories (death at any point of RUNNING, '
+        'any status, any notice order) on the real parent code with a fake '
+        'clock, oracle = timing window + converse + status text',
+        'Generated histories kill simulated workers (18 signals, exit codes '
+        '0-255) while running or idle, with several victims, ticks and clock '
+        'advances around the lost-worker timeout: a job is failed with '
+        'WorkerLostError only if a worker owning an unfinished part of it died, '
+        'not before timeout after the reaping step, and is resolved by the first '
+        'supervision step after it; the text names the real status; other jobs '
+        'are unaffected. Exploration level.',
+        'Simulated workers; losses of imap parts (D4/D13) and deaths reaped before '
+        'their ACK is consumed (D7) are open known findings, excluded by '
+        'construction and replayed.',
+        'DESIGN.md section 3 C04'),
+    'C05': (
+        'simpool',
+        'Hypothesis-generated limit/clock/scan histories on the real '
+        'TimeoutHandler with a fake clock; oracle = reference deadline model and '
+        'recorded signals',
+        'Pool-level and per-job hard limits, elapsed fake time around the limit, '
+        'scans before/after the result message, victims that honour TERM or '
+        'linger (KILL), group leaders or not, map/imap jobs sharing the pool: a '
+        'scan fails exactly the jobs past their effective limit with '
+        'TimeLimitExceeded(limit), signals only their workers (TERM first, KILL iff '
+        'lingering), never times out map/imap jobs, never raises. Exploration.',
+        'Signals are recorded on simulated processes; real kill/replace is the '
+        'real-pool part.',
+        'DESIGN.md section 3 C05'),
+    'C06': (
+        'simpool',
+        'Hypothesis-generated soft/hard limit combinations and scan sequences on '
+        'the real TimeoutHandler with a fake clock',
+        'For all generated combinations of pool/per-job soft and hard limits and '
+        'successive scans: the soft signal is recorded only for a worker whose '
+        'unresolved job is past its effective soft limit and not past its hard '
+        'limit, at most once per job, with timeout_callback(soft=True, '
+        'timeout=limit) exactly once; per-job limits take precedence. Exploration.',
+        'That the signal raises SoftTimeLimitExceeded inside the task is checked '
+        'with real processes in the real-pool part.',
+        'DESIGN.md section 3 C06'),
+    'C07': (
+        'simpool',
+        'Hypothesis-generated close/join histories on the real parent code; '
+        'oracle = all pre-close jobs resolved with sequential values, no guard '
+        'wait, join never blocks on a live worker',
+        'Generated mixes of apply/map/imap jobs and worker progress with close() '
+        'at any point, then join(): every job handed out before close resolves '
+        'with its sequential value, each simulated worker\'s consumed-result '
+        'counter reaches its number of results so none waits out the 30 s guard, '
+        'join() does not wait on a worker with no reason to exit, and '
+        'submissions after close() return None. Exploration level.',
+        'Simulated workers; real processes/threads being gone after join() is the '
+        'real-pool part. D10 (closed recycling pool) and D6b (late READY not '
+        'credited) are open known findings.',
+        'DESIGN.md section 3 C07'),
+    'C09': (
+        'simpool',
+        'Hypothesis-generated exit/grow/shrink/submit histories on the real '
+        'supervision code; invariant after every supervision step',
+        'For generated sequences of worker exits (clean, recycle, error, signal), '
+        'grow/shrink and submissions with quotas 1-3: after every supervision '
+        'step the pool is back at its configured size, never above it, with '
+        'distinct slot indices and no exited worker left listed; recycle/clean '
+        'exits fail no job; a worker whose results were consumed is not held up '
+        'by the 30 s guard. Exploration level.',
+        'Simulated workers; quota enforcement in the worker loop is checked by '
+        'C03; D6b is an open known finding.',
+        'DESIGN.md section 3 C09'),
+    'C10': (
+        'unit+simpool',
+        'Model-based op sequences on LaxBoundedSemaphore (exhaustive small scope '
+        '+ Hypothesis) and generated pool histories with put-locks',
+        'LaxBoundedSemaphore agrees with the (value,bound) reference model on '
+        'every acquire/release/grow/shrink/clear sequence (all sequences up to '
+        'length 7 for n<=2 enumerated, longer ones generated); in pool histories '
+        'with put-locks the semaphore never exceeds its bound, equals bound minus '
+        'outstanding apply jobs on exit-free histories, and is full again at '
+        'quiescence. Exploration level (small scope exhaustive).',
+        'Failed sends leak a slot (open known finding D15).',
+        'DESIGN.md section 3 C10'),
+    'C11': (
+        'unit+simpool',
+        'Reference limiter written from the statement vs restart_state '
+        '(exhaustive small scope + Hypothesis) and vs Pool.maintain_pool on '
+        'generated exit histories; Supervisor.body under fake sleep',
+        'restart_state agrees step by step with a reference limiter on generated '
+        'and exhaustively enumerated step/reset sequences with gaps around the '
+        'window; maintain_pool raises RestartFreqExceeded exactly when the '
+        'reference does and starts exactly the admitted number of processes, '
+        'clean/recycle exits never consume budget, ACKs reset the count; the '
+        'start-up burst limiter (10 x processes, 1 s) is in force for the first '
+        'ten iterations and the original restored. Exploration level.',
+        'No grow/shrink in these histories (see DESIGN soundness note 7).',
+        'DESIGN.md section 3 C11'),
 }
 
 NOT_YET = 'check not built yet in this session (planned, see DESIGN.md section 3)'
